@@ -1191,7 +1191,7 @@ def run(ctx):
         'both modes, saturation reductions, automatic VOA, start offset, total reference power)',
         'pref_ch_db, pref_total_db = pref_ch_db + 10 log10(nb_channels), PSD/PSW ROADM targets and loss_coef x length are '
         'inputs of the model computed by the harness with math.log10 / plain products, independently of gnpy.core.utils',
-        'noise figures of the candidates of each auto-designed node are inputs recorded with gnpy.core.network.edfa_nf',
+        'noise figures of the candidates of each auto-designed node are inputs computed on a fresh gnpy.core.elements.Edfa (c10.nf_of)',
         'Raman gain estimates of RamanFibers (reference power / designed power) are inputs recorded by wrapping '
         'estimate_raman_gain; OMS with a RamanFiber are not propagated; SRS tilt is 0 (Raman flag off); multiband lines '
         'are generated without RamanFiber; the design band(s) of each degree are inputs read from the implementation',
